@@ -30,6 +30,28 @@ def _patched_write(self, data, block=None):
 
 FileStorage.write = _patched_write
 
+# Opening a store with mode "wb+" (constructor with overwrite / first creation, clear()) empties the file: that is an event of
+# the program-ordered history too (a crash between the two truncations of clear() leaves one store emptied and the other
+# intact).  The library calls the builtin open() from traph/traph.py; the harness gives that module its own `open` that logs
+# truncations of recorded files.  Logged as (which, -1, b"", False).
+import builtins
+import traph.traph as _traph_module
+
+
+def _recording_open(path, mode="r", *a, **k):
+    try:
+        key = _ACTIVE.get(os.path.realpath(path)) if isinstance(path, (str, bytes)) else None
+    except Exception:
+        key = None
+    f = builtins.open(path, mode, *a, **k)
+    if key is not None and "w" in mode:
+        rec, which = key
+        rec.log.append((which, -1, b"", False))
+    return f
+
+
+_traph_module.open = _recording_open
+
 
 class Recorder(object):
     def __init__(self, folder):
@@ -50,6 +72,9 @@ class Recorder(object):
         """(trie bytes, link bytes) after the first k writes and the first `partial` bytes of write k"""
         bufs = {"trie": bytearray(), "link": bytearray()}
         for which, off, data, grows in self.log[:k]:
+            if off == -1:
+                bufs[which] = bytearray()       # truncation
+                continue
             b = bufs[which]
             if len(b) < off:
                 b.extend(b"\x00" * (off - len(b)))
